@@ -37,10 +37,10 @@ type codecX struct {
 	x *extractor
 	u *unit
 	// main codec
-	mainMarshal   []crow
-	mainUnmarshal []crow
-	mainSafe      map[string]bool // primitive name -> verified bounds-checked
-	dataIrregular bool
+	mainMarshal           []crow
+	mainUnmarshal         []crow
+	mainSafe              map[string]bool // primitive name -> verified bounds-checked
+	dataIrregular         bool
 	extDispatchOnOriginal bool
 	// filexfer
 	fxMarshal   []crow
@@ -139,8 +139,8 @@ func (c *codecX) parseMainAppends(who string, fd *ast.FuncDecl, recv, mode strin
 	row.typ = -1
 	started := mode == "frag"
 	done := false
-	pendingCount := ""   // uint32(len(recv.F)) written, waiting for the loop
-	payloadFrom := ""    // what `payload` holds ("names", "attrs")
+	pendingCount := "" // uint32(len(recv.F)) written, waiting for the loop
+	payloadFrom := ""  // what `payload` holds ("names", "attrs")
 	payloadDeclared := false
 	restPending := false // the attrs type switch was seen
 	stmts := fd.Body.List
@@ -828,6 +828,14 @@ func (c *codecX) countGuard(pi *pkgInfo, who string, fd *ast.FuncDecl, elemType 
 		}
 		ctext := pi.nodeText(is.Cond)
 		mentions := func(e ast.Expr) bool { return isIdent(stripConv(pi, e), countVar) }
+		// `count < 0 || count > LEN/K`: the sign test (int(uint32) on 32-bit platforms) is not the guard itself
+		if be.Op == token.LOR {
+			if l, ok := be.X.(*ast.BinaryExpr); ok && l.Op == token.LSS && mentions(l.X) && pi.nodeText(l.Y) == "0" {
+				if r, ok := be.Y.(*ast.BinaryExpr); ok {
+					be = r
+				}
+			}
+		}
 		if !mentions(be.X) && !mentions(be.Y) {
 			return true
 		}
